@@ -4,4 +4,6 @@ set -e
 cd "$(dirname "$0")"
 export CARGO_NET_OFFLINE=true
 (cd sim && cargo build --release --offline 2>&1 | tail -3)
+gcc -O2 -fPIC -shared -o fsfault/libfsfault.so fsfault/fsfault.c -ldl
+(cd /repo && cargo build --release --offline -p emmylua_formatter --bin luafmt --target-dir /verif/target/repo 2>&1 | tail -1)
 echo "setup ok"
